@@ -101,6 +101,8 @@ fn sub_ty(
     );
 
     for _ in 0..constr.len() {
+        #[cfg(feature = "verif")]
+        crate::verif_hooks::bump(4);
         let mut con = constr.pop_constr().expect("Cannot be empty");
         constraint_pos += 1;
         macro_rules! replace {
